@@ -56,6 +56,9 @@ func account(c Case, oc Outcome) {
 	if len(c.Lib.Queue) > 5 {
 		harness.Label("library-blocks>=2")
 	}
+	if len(c.Lib.Queue) > 12 {
+		harness.Label("library-queue>12(sorts no longer stable by accident)")
+	}
 	if oc.Transferred > 0 && nondefault > 0 {
 		harness.NonTrivial(harness.Hash(fmt.Sprintf("%+v", c)))
 		harness.Label("nontrivial")
